@@ -288,7 +288,18 @@ func (c *FnCtx) havoc(st *State, ms *modSet, hint string) {
 
 func (c *FnCtx) havocHeapKey(st *State, k string) {
 	srt := c.heapSort(k)
-	st.heap[k] = c.fresh("Hh_"+sanitizeSym(k), srt)
+	old := st.heap[k]
+	nw := c.fresh("Hh_"+sanitizeSym(k), srt)
+	st.heap[k] = nw
+	// maps / boxed scalars / abstract containers allocated by this function and never handed to a callee cannot be
+	// changed by anybody else
+	if old != "" && (strings.HasPrefix(k, "map.") || strings.HasPrefix(k, "ptr.")) {
+		for _, r := range c.refs {
+			if !c.escaped[r] {
+				st.assume(tEq(tApp("select", nw, r), tApp("select", old, r)))
+			}
+		}
+	}
 }
 
 func (c *FnCtx) havocGhost(st *State, g string) {
